@@ -52,8 +52,9 @@ Inductive eqs_order := EqsByVarNames | EqsUnknown.
 Inductive lam_args := LamTimeVarsPars | LamUnknown.
 Inductive sym_table := SymVarsParsData | SymUnknown.
 Inductive stat_term := StatFloatTimesRate | StatUnknown.
-Inductive dyn_term := DynListTimesRate | DynUnknown.
+Inductive dyn_term := DynListTimesRate | DynCoefTimesRate | DynUnknown.
 Inductive fallback_kind := FallbackWarnAnyException | FallbackUnknown.
+Inductive time_arg := TimePlain | TimeShifted | TimeUnknown.
 
 Record sym_facts := mkSymFacts {
   sf_order : der_order ;          (* derived inserted into the symbol table in which order *)
@@ -64,7 +65,8 @@ Record sym_facts := mkSymFacts {
   sf_jac : jac_layout ;           (* Matrix(eqs).jacobian(Matrix(list(variables.values()))) *)
   sf_lam : lam_args ;             (* lambdify(("time", variable names, parameter names), jac) *)
   sf_third : closure_third ;      (* what the closure passes as third argument *)
-  sf_fallback : fallback_kind     (* try: ... except Exception: warn; jac_fn stays None *)
+  sf_fallback : fallback_kind ;   (* try: ... except Exception: warn; jac_fn stays None *)
+  sf_time : time_arg              (* first argument of the closure: t | t + t_shift (absolute time after an override) *)
 }.
 
 (** ---- outcomes ------------------------------------------------------------------------- *)
@@ -185,6 +187,47 @@ Section WithSymPy.
         end
     end.
 
+  (** the repaired dynamic part (fact DynCoefTimesRate):
+        if (coef := fn_to_sympy(der.fn, origin=rxn, model_args=[symbols[i] for i in der.args])) is None: raise ValueError
+        eqs[cpd] = eqs.get(cpd, Float(0.0)) + coef * rxns[rxn] *)
+  Fixpoint dyn_row (tab rxns : list (name * expr)) (cpd : name) (ds : list (name * comp)) (eqs : list (name * expr))
+    : err + list (name * expr) :=
+    match ds with
+    | [] => inr eqs
+    | (r, c) :: rest =>
+        match conv_one tab c with
+        | inl e => inl e
+        | inr ce =>
+            match lookup r rxns with
+            | None => inl ErrKey
+            | Some re => dyn_row tab rxns cpd rest ((cpd, EAdd (eq_get eqs cpd) (EMul ce re)) :: eqs)
+            end
+        end
+    end.
+  Fixpoint dyn_loop_coef (tab rxns : list (name * expr)) (tbl : list (name * list (name * comp))) (eqs : list (name * expr))
+    : err + list (name * expr) :=
+    match tbl with
+    | [] => inr eqs
+    | (cpd, ds) :: rest =>
+        match dyn_row tab rxns cpd ds eqs with
+        | inl e => inl e
+        | inr eqs' => dyn_loop_coef tab rxns rest eqs'
+        end
+    end.
+
+  (** the dynamic part under the regenerated fact.  DynListTimesRate is the snapshot's statement
+      [fn_to_sympy(der.fn, [symbols...] * rxns[rxn])] (misplaced parenthesis): it is modelled on rate
+      expressions that are not SymPy Integers (list * expression: TypeError); on an Integer rate
+      Python repeats the list and fn_to_sympy returns the function's UNSUBSTITUTED body -- that case
+      is outside the expression fragment (recorded defect, fixes/C12-dynamic-coefficient.diff). *)
+  Definition dyn_part (F : sym_facts) (tab rxns : list (name * expr)) (tbl : list (name * list (name * comp)))
+             (eqs : list (name * expr)) : err + list (name * expr) :=
+    match sf_dyn F with
+    | DynListTimesRate => match dyn_loop tab rxns tbl with Some e => inl e | None => inr eqs end
+    | DynCoefTimesRate => dyn_loop_coef tab rxns tbl eqs
+    | DynUnknown => inl ErrUnmodelled
+    end.
+
   Definition to_symbolic (F : sym_facts) (m : smodel) : sym_result :=
     match der_sequence F m with
     | None => SymErr ErrUnmodelled
@@ -197,10 +240,10 @@ Section WithSymPy.
     | inr rxns =>
     match stat_loop rxns (m_stoich m) [] with
     | inl e => SymErr e
+    | inr eqs0 =>
+    match dyn_part F tab rxns (m_dyn m) eqs0 with
+    | inl e => SymErr e
     | inr eqs =>
-    match dyn_loop tab rxns (m_dyn m) with
-    | Some e => SymErr e
-    | None =>
     match lookup_all eqs (m_vars m) with           (* [eqs[i] for i in cache.var_names] *)
     | None => SymErr ErrKey
     | Some l => SymOk l
@@ -305,6 +348,23 @@ Section WithSymPy.
             end
         end
     end.
+  (** what the closure passes as time:  t  (snapshot)  |  t + t_shift  with
+      t_shift = 0.0 if self._time_shift is None else self._time_shift  (after a variable override the
+      integrator restarts at its own time 0; the Jacobian still sees absolute time) *)
+  Definition closure_time (F : sym_facts) (time_shift : option Q) (t : Q) : option Q :=
+    match sf_time F with
+    | TimePlain => Some t
+    | TimeShifted => Some (t + match time_shift with None => 0 | Some s => s end)
+    | TimeUnknown => None
+    end.
+
+  (** jac_fn(t, x) as the integrator calls it *)
+  Definition call_closure_at (F : sym_facts) (m : smodel) (js : jac_state) (time_shift : option Q) (t : Q) (x : list Q)
+    : closure_result :=
+    match closure_time F time_shift t with
+    | None => CErr ErrUnmodelled
+    | Some ta => call_closure F m js ta x
+    end.
 End WithSymPy.
 
 (** ---- the numeric right-hand side (Model.__call__), as a specification --------------------- *)
@@ -337,6 +397,103 @@ Section Numeric.
   Definition num_rhs (m : smodel) (env : name -> Q) (v : name) : Q :=
     stat_sum env (m_stoich m) v + dyn_sum env (m_dyn m) v.
 End Numeric.
+
+(** ---- where the cache's coefficient tables come from ------------------------------------------
+    Model._create_cache, loop "Calculate dynamic and static stochiometries":
+
+      for rxn_name, rxn in self._reactions.items():
+          for cpd_name, factor in rxn.stoichiometry.items():
+              d_static = stoich_by_compounds.setdefault(cpd_name, {})
+              if isinstance(factor, Derived):
+                  if all(i in all_parameter_names for i in factor.args):
+                      d_static[rxn_name] = factor.calculate(dependent)      (* a NUMBER: value now *)
+                  else:
+                      dyn_stoich_by_compounds.setdefault(cpd_name, {})[rxn_name] = factor
+              else:
+                  d_static[rxn_name] = factor
+
+    The keys of one Python dict are distinct, so [d[rxn_name] = ...] always creates a new key in the
+    row: modelled as appending at the end of the row (insertion order). *)
+Inductive coef := CNum (q : Q) | CFun (c : comp).
+Definition raw_stoich := list (name * list (name * coef)).    (* reaction -> (compound -> factor) *)
+
+(** [tbl.setdefault(cpd, {})] *)
+Fixpoint setdefault {A} (cpd : name) (tbl : list (name * list (name * A))) : list (name * list (name * A)) :=
+  match tbl with
+  | [] => [(cpd, [])]
+  | (c, row) :: rest => if N.eqb c cpd then (c, row) :: rest else (c, row) :: setdefault cpd rest
+  end.
+(** [tbl.setdefault(cpd, {})[rxn] = v] *)
+Fixpoint tbl_add {A} (cpd rxn : name) (v : A) (tbl : list (name * list (name * A))) : list (name * list (name * A)) :=
+  match tbl with
+  | [] => [(cpd, [(rxn, v)])]
+  | (c, row) :: rest => if N.eqb c cpd then (c, row ++ [(rxn, v)]) :: rest else (c, row) :: tbl_add cpd rxn v rest
+  end.
+
+Section Build.
+  Variable fsem : fnid -> list Q -> Q.
+  Variable parnames : list name.        (* all_parameter_names: parameters and parameter-only derived values *)
+  Variable env0 : name -> Q.            (* [dependent]: the values when the cache is built *)
+
+  Definition is_static (c : comp) : bool := forallb (fun a => memN a parnames) (c_args c).
+
+  Definition tables := (list (name * list (name * Q)) * list (name * list (name * comp)))%type.
+
+  Definition add_factor (rxn cpd : name) (f : coef) (acc : tables) : tables :=
+    match f with
+    | CNum q => (tbl_add cpd rxn q (fst acc), snd acc)
+    | CFun c =>
+        if is_static c
+        then (tbl_add cpd rxn (fsem (c_fn c) (map env0 (c_args c))) (fst acc), snd acc)
+        else (setdefault cpd (fst acc), tbl_add cpd rxn c (snd acc))
+    end.
+  Fixpoint add_rxn (rxn : name) (sto : list (name * coef)) (acc : tables) : tables :=
+    match sto with
+    | [] => acc
+    | (cpd, f) :: rest => add_rxn rxn rest (add_factor rxn cpd f acc)
+    end.
+  Fixpoint build_from (raw : raw_stoich) (acc : tables) : tables :=
+    match raw with
+    | [] => acc
+    | (rxn, sto) :: rest => build_from rest (add_rxn rxn sto acc)
+    end.
+  Definition build_tables (raw : raw_stoich) : tables := build_from raw ([], []).
+End Build.
+
+(** the numeric right-hand side from the model's own stoichiometries (Model.__call__:
+    dxdt[cpd] += factor * flux, every computed factor evaluated at the CURRENT values) *)
+Section RawNumeric.
+  Variable fsem : fnid -> list Q -> Q.
+  Definition coef_val (env : name -> Q) (f : coef) : Q :=
+    match f with CNum q => q | CFun c => fsem (c_fn c) (map env (c_args c)) end.
+  Fixpoint raw_row_sum (env : name -> Q) (rxn : name) (sto : list (name * coef)) (v : name) : Q :=
+    match sto with
+    | [] => 0
+    | (cpd, f) :: rest => (if N.eqb cpd v then coef_val env f * env rxn else 0) + raw_row_sum env rxn rest v
+    end.
+  Fixpoint raw_rhs (env : name -> Q) (raw : raw_stoich) (v : name) : Q :=
+    match raw with
+    | [] => 0
+    | (rxn, sto) :: rest => raw_row_sum env rxn sto v + raw_rhs env rest v
+    end.
+End RawNumeric.
+
+(** boolean comparison of coefficient tables (correspondence files) *)
+Definition comp_eqb (a b : comp) : bool :=
+  N.eqb (c_fn a) (c_fn b) && (length (c_args a) =? length (c_args b))%nat
+  && forallb (fun p => N.eqb (fst p) (snd p)) (combine (c_args a) (c_args b)).
+Fixpoint row_eqb {A} (eqb : A -> A -> bool) (a b : list (name * A)) : bool :=
+  match a, b with
+  | [], [] => true
+  | (k, x) :: a', (k', y) :: b' => N.eqb k k' && eqb x y && row_eqb eqb a' b'
+  | _, _ => false
+  end.
+Fixpoint tbl_eqb {A} (eqb : A -> A -> bool) (a b : list (name * list (name * A))) : bool :=
+  match a, b with
+  | [], [] => true
+  | (k, x) :: a', (k', y) :: b' => N.eqb k k' && row_eqb eqb x y && tbl_eqb eqb a' b'
+  | _, _ => false
+  end.
 
 (** ---- decidable comparisons for the correspondence files ----------------------------------- *)
 Definition err_eqb (a b : err) : bool :=
